@@ -35,3 +35,43 @@ Theorem c17_plain_unique : forall re_match p u v,
   suffixb [slash] (u_path u) = suffixb [slash] (u_path v) -> u_path u = u_path v.
 Proof. exact plain_best_unique. Qed.
 Print Assumptions c17_plain_unique.
+
+(* The query string: without a rewrite rule the upstream receives it exactly as sent; with a rule
+   (whatever the regular-expression substitution `nu` produced and whatever the library makes of
+   the rule's own query) it receives the original query verbatim, followed only by the rule's
+   additions; the request is refused only when the rule's own query cannot be parsed. *)
+Theorem c17_query_verbatim : forall reencode rewritten orig q,
+  forwarded_query reencode rewritten orig = Some q ->
+  prefixb orig q = true /\ (rewritten = None -> q = orig).
+Proof. exact forwarded_query_verbatim. Qed.
+Print Assumptions c17_query_verbatim.
+
+Theorem c17_query_additions : forall reencode nu orig p aq rq,
+  cut_question nu = Some (p, aq) -> reencode aq = Some rq ->
+  forwarded_query reencode (Some nu) orig =
+    Some (match orig, rq with [] , _ => rq | _, [] => orig | _, _ => orig ++ ampersand :: rq end).
+Proof. exact forwarded_query_additions. Qed.
+Print Assumptions c17_query_additions.
+
+Theorem c17_query_no_additions : forall reencode nu orig,
+  cut_question nu = None -> forwarded_query reencode (Some nu) orig = Some orig.
+Proof. exact forwarded_query_no_additions. Qed.
+Print Assumptions c17_query_no_additions.
+
+Theorem c17_rewrite_refused_iff : forall reencode rewritten orig,
+  forwarded_query reencode rewritten orig = None <->
+  exists nu p aq, rewritten = Some nu /\ cut_question nu = Some (p, aq) /\ reencode aq = None.
+Proof. exact forwarded_query_refused. Qed.
+Print Assumptions c17_rewrite_refused_iff.
+
+Theorem c17_rewritten_path_has_no_query : forall reencode orig nu p q,
+  split_path_and_query reencode orig nu = Some (p, q) -> ~ In question p.
+Proof. exact split_path_no_question. Qed.
+Print Assumptions c17_rewritten_path_has_no_query.
+
+(* non-vacuity: a rule that rewrites /articles/<id> to /article?id=<id>, on /articles/a1?b=2&a=%zz *)
+From Coq Require Import String.
+Example c17_query_example :
+  forwarded_query (fun aq => Some aq) (Some (s "/article?id=a1"%string)) (s "b=2&a=%zz"%string)
+  = Some (s "b=2&a=%zz&id=a1"%string).
+Proof. reflexivity. Qed.
